@@ -147,7 +147,7 @@ func structuredOffsets(ends [4]int64, calls []int64, t *tape.Tape) []int64 {
 		}
 	}
 	starts := []int64{0, ends[0], ends[1], ends[2]}
-	for k := int64(0); k <= 8; k++ {
+	for k := int64(0); k <= 16; k++ {
 		add(k)
 	}
 	for _, s := range starts[1:] {
@@ -160,6 +160,12 @@ func structuredOffsets(ends [4]int64, calls []int64, t *tape.Tape) []int64 {
 	}
 	for k := int64(1); k <= 6; k++ {
 		add(ends[3] - k)
+	}
+	// the verifying-key section is small: every offset of it
+	if ends[2]-ends[1] <= 4096 {
+		for k := ends[1]; k <= ends[2]; k++ {
+			add(k)
+		}
 	}
 	// Write-call boundaries: array boundaries inside the keys show up here
 	step := len(calls) / 120
@@ -187,12 +193,12 @@ func structuredOffsets(ends [4]int64, calls []int64, t *tape.Tape) []int64 {
 	// the header offsets come first in any case
 	front := make([]int64, 0, len(out))
 	for _, k := range out {
-		if k <= 8 {
+		if k <= 16 {
 			front = append(front, k)
 		}
 	}
 	for _, k := range out {
-		if k > 8 {
+		if k > 16 {
 			front = append(front, k)
 		}
 	}
@@ -304,7 +310,7 @@ func readPrefix(prefix []byte, style int, cuts []int, path string) readOutcome {
 	select {
 	case o := <-done:
 		return o
-	case <-time.After(240 * time.Second):
+	case <-time.After(time.Duration(60+3*(len(prefix)>>20)) * time.Second):
 		return readOutcome{hang: true}
 	}
 }
@@ -361,7 +367,7 @@ func (c *C15) Run(x *engine.Ctx) *engine.Violation {
 		x.S.Count("fault:disk/crash-after-k-bytes")
 		prefix = data[:k]
 	}
-	if ops.Bin() != "" && t.Chance(1, 20) {
+	if ops.Bin() != "" && t.Chance(1, 10) {
 		return c.cliOnPrefix(x, format, prefix, ends)
 	}
 	style := t.Weighted(5, 3, 1)
@@ -695,6 +701,11 @@ func (c *C11) cliConvert(x *engine.Ctx) *engine.Violation {
 	in, out := filepath.Join(dir, "in.ps"), filepath.Join(dir, "out.ps")
 	if err := os.WriteFile(in, c.d.comp, 0o644); err != nil {
 		panic(err)
+	}
+	inPlace := x.T.Chance(1, 2)
+	if inPlace {
+		out = in // converting a keys file in place (same path for input and output)
+		x.S.Count("probe:cli_convert_to_raw_in_place")
 	}
 	r := ops.Run(ops.Cmd{Args: []string{"convert-to-raw", "--input", in, "--output", out}})
 	x.S.Eval(1)
